@@ -6,6 +6,12 @@ def main(tier, seed, t0, only=None):
     plan = [(1, 3, 0, 0, 8), (1, 3, 0, 1, 8), (1, 0, 17, 0, 2), (1, 1, 17, 0, 2)]
     if not q: plan += [(2, 0, 0, 0, 16), (2, 2, 0, 0, 16), (2, 1, 0, 0, 16), (2, 0, 0, 1, 16)]
     J = domfam.jobs('C06', 8, tier, plan=plan)
+    from runner import Job
+    for reuse in (0, 1):
+        J.append(Job('C06.nonfinite.reuse%d' % reuse, 'harness/c_ser.cpp', '@h_ser', [0, reuse], bound='every non-finite double (all 2^53 bit patterns with exponent 0x7ff, symbolic) as root / array element / member value / nested element; write buffer %s' % ('reused' if reuse else 'fresh')))
+    for n in ([0, 1, 3, 8, 17] if q else [0, 1, 2, 3, 8, 15, 16, 17, 31, 32, 33, 40]):
+        J.append(Job('C06.strings.n%d' % n, 'harness/c_ser.cpp', '@h_ser', [1, n], nproc=4 if n < 20 else 16, timeout=3400,
+                     bound='object whose key and value are the same %d symbolic bytes (at most one needing an escape, at a symbolic position): serialise, reference recogniser, parse back, bytes equal, re-serialise identical' % n))
     if only: J = [j for j in J if re.search(only, j.name)]
     res = runner.run_jobs(J)
     return runner.finish('C06', tier, seed, res, 'model_checking',
